@@ -65,14 +65,24 @@ Theorem C17_unacceptable_inert_arrives : forall t s, in_segs t = [] -> unaccepta
 Proof. exact unacceptable_inert_arrives. Qed.
 Print Assumptions C17_unacceptable_inert_arrives.
 
-(* CLOSING is not covered: the code skips the sequence check there *)
-Theorem C17_unacceptable_closing_refuted :
+(* CLOSING is covered since fix commit bbbdf8a3 (the code used to skip the sequence
+   check there).  The former refutation witness - an ACK of our FIN and a RST, both
+   2^31 beyond RCV.NXT, met in CLOSING - is now an instance of the theorem above,
+   and computes to "state unchanged, nothing deleted". *)
+Theorem C17_closing_witness_unacceptable :
   Inv closing_tcb /\ wf_seg far_ack /\ wf_seg far_rst /\
-  is_seq_ok closing_tcb 0 (h_seq (s_hdr far_ack)) false false = false /\
-  (exists t', segment_arrives closing_tcb far_ack = Ok (t', AOk) /\ st t' = TimeWait) /\
-  (exists t', segment_arrives closing_tcb far_rst = Ok (t', AClose)).
-Proof. exact closing_not_inert. Qed.
-Print Assumptions C17_unacceptable_closing_refuted.
+  unacceptable closing_tcb far_ack /\ unacceptable closing_tcb far_rst.
+Proof. exact (conj (proj1 closing_witness_wf) (conj (proj1 (proj2 closing_witness_wf))
+         (conj (proj2 (proj2 closing_witness_wf)) closing_far_unacceptable))). Qed.
+Print Assumptions C17_closing_witness_unacceptable.
+
+Theorem C17_closing_witness_inert :
+  match segment_arrives closing_tcb far_ack, segment_arrives closing_tcb far_rst with
+  | Ok (t1, AOk), Ok (t2, AOk) => st t1 = Closing /\ st t2 = Closing
+  | _, _ => False
+  end.
+Proof. exact closing_now_inert. Qed.
+Print Assumptions C17_closing_witness_inert.
 
 (* is_seq_ok = false is "entirely outside [RCV.NXT-1, RCV.NXT+RCV.WND)" *)
 Theorem C17_outside_is_unacceptable : forall t len seq syn fin,
